@@ -406,6 +406,8 @@ static OracleOut oracle_judge(const refgeoid::Grid<LD>& RG, bool cubic, double l
     double ratio = bound > 0 ? (double)(err / bound) : (err == 0 ? 0.0 : HUGE_VAL);
     if (!(ratio >= best.ratio)) { best.ratio = ratio; best.ref = r.h; best.bound = bound; best.variant = r.variant; best.cx = r.cx; best.cy = r.cy; }
   }
+  // the violation key names the fit that the documented cell rule selects (exact floor), not the best-matching neighbour
+  if (cubic) { long cy0 = (long)floorl(y); if (cy0 > RG.h() - 2) cy0 = RG.h() - 2; if (cy0 < 0) cy0 = 0; best.variant = cy0 == 0 ? 1 : (cy0 == RG.h() - 2 ? 2 : 0); }
   return best;
 }
 
